@@ -61,11 +61,14 @@ func drawConfig(prop, tier string, c *kernel.Chooser) Config {
 	if thorough && c.Chance(30) {
 		cfg.MaxChain = 127
 	}
+	if cfg.Mode == ModeGoodCase && c.Chance(250) {
+		cfg.MaxChain = 127 // common inputs up to the maximum chain length
+	}
 	cfg.Branches = c.Range(1, 3)
 
 	// roles and powers
 	cfg.Roles = make([]Role, cfg.N)
-	profile := c.Intn(5)
+	profile := c.Intn(6)
 	base := make([]int64, cfg.N)
 	for i := range base {
 		switch profile {
@@ -80,6 +83,8 @@ func drawConfig(prop, tier string, c *kernel.Chooser) Config {
 			base[i] = int64(1) << uint(c.Intn(10))
 		case 3: // random
 			base[i] = int64(1 + c.Intn(1000))
+		case 5: // byte-scale powers (around 2^47..2^60), as on a real network
+			base[i] = int64(1)<<uint(47+c.Intn(13)) + int64(c.Intn(1<<30))
 		case 4: // with dust members whose scaled power is 0
 			base[i] = int64(100000 + c.Intn(100000))
 			if i > 0 && c.Chance(300) {
@@ -119,9 +124,42 @@ func drawConfig(prop, tier string, c *kernel.Chooser) Config {
 	if cfg.N >= 3 && c.Chance(250) && cfg.Mode != ModeGoodCase {
 		drawBoundary(&cfg, c)
 	}
+	// liveness at the edge of its premise: the members that ever speak after stabilisation hold
+	// exactly two thirds of a scaled total divisible by three (equal powers, N a multiple of 3);
+	// the last third is one Byzantine member (if that is below a third) and crash-silent ones
+	if cfg.Mode == ModeLiveness && c.Chance(120) {
+		cfg.ExactTwoThirds = true
+		cfg.Boundary = false
+		cfg.N = []int{6, 3, 9, 6}[c.Intn(4)]
+		if thorough && c.Chance(300) {
+			cfg.N = 12
+		}
+		cfg.Roles = make([]Role, cfg.N)
+		for k := range cfg.Powers {
+			cfg.Powers[k] = make([]int64, cfg.N)
+			for i := range cfg.Powers[k] {
+				cfg.Powers[k][i] = 100
+			}
+		}
+		cfg.Camp = make([]int, cfg.N)
+		for i := range cfg.Camp {
+			cfg.Camp[i] = c.Intn(2)
+		}
+		perm := c.Perm(cfg.N)
+		for j, i := range perm {
+			switch {
+			case j < 2*cfg.N/3:
+				cfg.Roles[i] = Honest
+			case j == 2*cfg.N/3 && cfg.N >= 6 && c.Chance(700):
+				cfg.Roles[i] = Byzantine
+			default:
+				cfg.Roles[i] = Silent
+			}
+		}
+	}
 	// assign faulty roles greedily under the < 1/3 budget of every table (scaled power)
-	if cfg.Boundary {
-		// roles fixed by drawBoundary
+	if cfg.Boundary || cfg.ExactTwoThirds {
+		// roles fixed by drawBoundary / above
 	} else if prop != "C02" || cfg.Mode != ModeGoodCase {
 		want := c.Intn(cfg.N/3 + 2)
 		for t := 0; t < want; t++ {
@@ -138,6 +176,16 @@ func drawConfig(prop, tier string, c *kernel.Chooser) Config {
 				cfg.Roles[i] = Honest
 			}
 		}
+	}
+	// optionally one honest member with a deviating view of the base (see Config.Deviant)
+	cfg.Deviant = -1
+	if (prop == "C01" || prop == "C02") && cfg.Mode == ModeSafety && cfg.N >= 4 && !cfg.Boundary && c.Chance(80) {
+		for i, r := range cfg.Roles {
+			if r == Honest && cfg.Powers[0][i] > 0 && (cfg.Deviant < 0 || cfg.Powers[0][i] < cfg.Powers[0][cfg.Deviant]) {
+				cfg.Deviant = i
+			}
+		}
+		cfg.DeviantKind = c.Intn(3)
 	}
 	// network
 	cfg.BaseLatency = []time.Duration{0, cfg.Delta / 20, cfg.Delta / 4, cfg.Delta / 2, cfg.Delta}[c.Intn(5)]
@@ -308,14 +356,25 @@ func faultyWithinBudget(cfg *Config) bool {
 			}
 		}
 		scaled, T, _ := scaledPowers(entries)
-		var B, H int64
+		var B, H, byz int64
 		for i, r := range cfg.Roles {
 			s := scaled[gpbft.ActorID(i+1)]
 			if r == Honest {
 				H += s
 			} else {
 				B += s
+				if r == Byzantine {
+					byz += s
+				}
 			}
+		}
+		if cfg.ExactTwoThirds {
+			// the premise of C06 itself: honest members hold a strong quorum, message-sending
+			// faulty members less than a third (the rest of the faulty third is crash-silent)
+			if T == 0 || 3*byz >= T || !isStrong(H, T) {
+				return false
+			}
+			continue
 		}
 		if T == 0 || 3*B >= T || !isStrong(H, T) {
 			return false
@@ -737,6 +796,9 @@ func Run(prop, tier string, c *kernel.Chooser, r *kernel.Recorder) *kernel.Viola
 
 func (w *World) allDone() bool {
 	for _, m := range w.honest() {
+		if m.deviant {
+			continue // can never decide: nobody shares its base
+		}
 		if !m.done {
 			return false
 		}
